@@ -88,6 +88,17 @@ def gen_script(r):
     return "".join(parts)
 
 
+def tls_align_obj(ctx, r, pic):
+    """An object with a small initialised TLS variable followed by an over-aligned zero-initialised one
+    (alignment from 64 bytes to 64 KiB, i.e. also above the page size); a constructor checks the
+    alignment the program actually observes."""
+    al = r.choice([64, 512, 4096, 0x2000, 0x8000, 0x10000])
+    src = (f"__thread int tls_al_init = 3;\n__thread char tls_al_big[{r.choice([8, 100, 5000])}] __attribute__((aligned({al})));\n"
+           f"__attribute__((constructor)) static void tls_al_chk(void) {{\n"
+           f"  if ((unsigned long)tls_al_big % {al} || tls_al_init != 3 || tls_al_big[1]) __builtin_trap();\n  tls_al_big[1] = 1;\n}}\n")
+    return tools.compile_c(ctx, src, ["-O1", *pic], name=f"c04tls{al}" + pic[0]), al
+
+
 def make_case(ctx, r, i):
     """Returns dict(kind, driver, args, run, expect)."""
     fam = r.choice(["c", "c", "c", "asm", "asm-script", "shared", "reloc"])
@@ -124,10 +135,20 @@ def make_case(ctx, r, i):
             o = _drop_pack(o)
         if r.random() < 0.2 and kind in ("static", "dynamic-nopie"):
             o += [f"-Ttext-segment={r.choice([0x600000, 0x10000000]):#x}"] if False else []
-        return dict(kind=kind, driver="gcc", args=[a, b, *kf], wl=o, run=True, expect=EXPECT)
+        extra = []
+        if r.random() < 0.5:
+            t, al = tls_align_obj(ctx, r, pic)
+            extra = [t]
+            ctx.note(f"tls-alignment:{al:#x}")
+        return dict(kind=kind, driver="gcc", args=[a, b, *extra, *kf], wl=o, run=True, expect=EXPECT)
     if fam == "shared":
         a = tools.compile_c(ctx, C_HELP + "\nint extra_fn(void){ return helper(2);}\n__thread int big_tls[100];\n", ["-O1", "-fPIC"], name="c04so")
-        return dict(kind="shared", driver="gcc", args=[a, "-shared"], wl=opts, run=False, expect=None)
+        extra = []
+        if r.random() < 0.5:
+            t, al = tls_align_obj(ctx, r, ["-fPIC"])
+            extra = [t]
+            ctx.note(f"tls-alignment:{al:#x}")
+        return dict(kind="shared", driver="gcc", args=[a, *extra, "-shared"], wl=opts, run=False, expect=None)
     obj = tools.assemble(ctx, ASM_START, name="c04asm")
     if fam == "reloc":
         obj2 = tools.assemble(ctx, ".globl other\n.text\nother: ret\n.data\n.quad other\n", name="c04asm2")
